@@ -55,7 +55,7 @@ struct Rec {
 constexpr int kMaxTasks = 256;
 Rec *gRecs = nullptr;
 std::atomic<int> gRunningNow{0};
-std::atomic<int> gDestroyedWhileRunning{0}, gDoubleRun{0};
+std::atomic<int> gDestroyedWhileRunning{0}, gDoubleRun{0}, gWrongArgument{0};
 std::mutex gDoneM;
 std::condition_variable gDoneCv;
 std::atomic<int> gFinishedEvents{0};   // run exits + destructions, for the owner's drain wait
@@ -125,7 +125,15 @@ struct Closure {
         if (tag != 777) gDestroyedWhileRunning.fetch_add(1);
         (*this)();
     }
+    // an argument handed over as a temporary must have been stored by value in the task
+    void operator()(std::string &text) {
+        if (text != "a temporary std::string argument that does not fit the small buffer") gWrongArgument.fetch_add(1);
+        (*this)();
+    }
 };
+
+std::atomic<int> gFnTaskId{-1};
+void functionTask(int &id) { runBody(id); }   // plain function pointer + lvalue argument (records are destroyed by the owner's bookkeeping below)
 
 int gLvalueArg = 777;
 
@@ -162,9 +170,10 @@ struct Program {
         if (r.closure) {
             ++C.closures;
             note("startC" + std::to_string(id));
-            unsigned how = (unsigned) rng.below(4);
+            unsigned how = (unsigned) rng.below(5);
             if (how == 0) pool->start(Closure(id));
             else if (how == 1) pool->start(Closure(id), gLvalueArg);
+            else if (how == 4) pool->start(Closure(id), std::string("a temporary std::string argument that does not fit the small buffer"));
             else {
                 // a named callable that goes out of scope (and is scribbled over) as soon as start() has returned:
                 // the pool must have taken its own copy
@@ -259,6 +268,7 @@ struct Program {
         }
         if (gDestroyedWhileRunning.load()) return fail("C07", "destroyed-while-running", "task", std::to_string(gDestroyedWhileRunning.load()) + " task(s) were destroyed while their run() was executing");
         if (gDoubleRun.load()) return fail("C07", "ran-twice", "task", "a task's run() was entered twice");
+        if (gWrongArgument.load()) return fail("C07", "wrong-argument", "task", "a closure task received a damaged copy of the argument that was handed to start() as a temporary");
         if (maxThreads == 1) {
             // one worker: tasks run in submission order
             uint64_t last = 0;
@@ -346,6 +356,7 @@ int main(int argc, char **argv) {
         gRunningNow.store(0);
         gDestroyedWhileRunning.store(0);
         gDoubleRun.store(0);
+        gWrongArgument.store(0);
         gFinishedEvents.store(0);
         spy::Delays d;
         int profile = (int) rng.below(4);
